@@ -277,14 +277,16 @@ def c01(ctx):
     it = iter(specs)
     c01_impl(ctx, len(specs), len(specs), lambda rr: graph_case(next(it)), 'tree:verify-symlink-graphs',
              'verification of a tree with directory symlinks differs from the reference (C01)')
+    # the exit status of the command-line tool over one or several requested paths
+    cli_keep_going(ctx)
 
 
 # --------------------------------------------------------------------------- C07
-def gen_keepgoing_case(r):
+def gen_keepgoing_case(r, nmut=None):
     c = GT.Case()
     t, files, written = GT.build_consistent(r, c, nfiles=r.randint(3, 9))
     muts = []
-    for _ in range(r.randint(2, 6)):
+    for _ in range(r.randint(2, 6) if nmut is None else nmut):
         muts.append(GT.mutate(r, c, files, written, r.choice(['content-same-size', 'content-other-size', 'delete', 'stray',
                                                                 'file-to-dir', 'stray', 'delete', 'fifo', 'stray-hidden',
                                                                 'dir-to-file', 'manifest-delete', 'dangling-link'])))
@@ -351,9 +353,10 @@ def cli_keep_going(ctx):
     n = multi = 0
     with ET.Scratch() as sc:
         for _ in range(150 if ctx.tier == 'quick' else 1500):
-            c = gen_keepgoing_case(r)
+            # few discrepancies, so that some of the requested paths are clean and others are not
+            c = gen_keepgoing_case(r, r.choice([None, 1, 1, 2]))
             dirs = [''] + [d for d in c.meta['dirs'] if d]
-            k = r.choice([1, 1, 2, 3])
+            k = r.choice([1, 2, 2, 3])
             paths = [r.choice(dirs) for _ in range(k)]
             b, s = sc.fresh()
             try:
@@ -365,7 +368,7 @@ def cli_keep_going(ctx):
                 def usable(p):
                     try:
                         return bool(p) and os.path.isdir(os.path.join(b, p)) and not os.path.islink(os.path.join(b, p)) \
-                            and find_top_level_manifest(os.path.join(b, p)) == os.path.join(b, 'Manifest')
+                            and os.path.realpath(find_top_level_manifest(os.path.join(b, p)) or '/') == os.path.realpath(os.path.join(b, 'Manifest'))
                     except Exception:
                         return False
                 paths = [p if usable(p) else '' for p in paths]
